@@ -929,6 +929,13 @@ func cacheViewFromFile(
 			if err = scope.Tx.CachedViews.Dispose(scope.Tx.FileContainer, fileInfo.IdentifiedPath()); err != nil {
 				return
 			}
+			// The view loaded for reading stays cached when it cannot be loaded again for update.
+			cachedView := view
+			defer func() {
+				if err != nil {
+					scope.Tx.CachedViews.Set(cachedView)
+				}
+			}()
 		} else {
 			fileInfo, err = NewFileInfo(fileIdentifier, scope.Tx.Flags.Repository, options, scope.Tx.Flags.ImportOptions.Format)
 			if err != nil {
@@ -973,6 +980,7 @@ func cacheViewFromFile(
 			}
 			if forUpdate {
 				err = appendCompositeError(err, scope.Tx.FileContainer.Close(fileInfo.Handler))
+				fileInfo.Handler = nil
 			}
 			return
 		}
